@@ -1,0 +1,77 @@
+//! Verification hooks (compiled only under `--cfg mscript_verif`).
+//!
+//! * `MSCRIPT_VERIF_TRACE=<file>`: one record per executed instruction.
+//! * `MSCRIPT_VERIF_TYPED_PRINT=1`: `printn` prefixes each value with its run-time kind.
+//! * `MSCRIPT_VERIF_DUMP=<file>`: the loaded instruction streams of every file of a Program.
+
+use std::fmt::Write as _;
+use std::io::Write as _;
+
+use crate::file::MScriptFile;
+use crate::Primitive;
+
+pub(crate) fn trace(function: &str, ip: usize, opcode: u8, frames: usize, operands: usize) {
+    thread_local! {
+        static OUT: std::cell::RefCell<Option<Option<std::io::BufWriter<std::fs::File>>>> = std::cell::RefCell::new(None);
+    }
+    OUT.with(|out| {
+        let mut out = out.borrow_mut();
+        if out.is_none() {
+            *out = Some(
+                std::env::var_os("MSCRIPT_VERIF_TRACE")
+                    .and_then(|p| std::fs::File::create(p).ok())
+                    .map(std::io::BufWriter::new),
+            );
+        }
+        if let Some(Some(w)) = out.as_mut() {
+            let _ = writeln!(w, "{function}\t{ip}\t{opcode}\t{frames}\t{operands}");
+            let _ = w.flush();
+        }
+    })
+}
+
+pub(crate) fn typed_print_enabled() -> bool {
+    thread_local! {
+        static ON: bool = std::env::var_os("MSCRIPT_VERIF_TYPED_PRINT").is_some();
+    }
+    ON.with(|x| *x)
+}
+
+/// kind tag of a value, floats additionally as their bit pattern
+pub(crate) fn kind_tag(p: &Primitive) -> String {
+    match p {
+        Primitive::Float(f) => format!("<Float:{:016x}>", f.to_bits()),
+        Primitive::Optional(Some(inner)) => format!("<Optional>{}", kind_tag(inner)),
+        other => format!("<{:?}>", other.ty()),
+    }
+}
+
+/// Length-prefixed rendering of every function of a file: no quoting is involved.
+pub fn dump_file(file: &MScriptFile) -> String {
+    let mut out = String::new();
+    let Some(functions) = file.get_functions_ref() else {
+        return out;
+    };
+    let mut names: Vec<&String> = functions.map.keys().collect();
+    names.sort();
+    let _ = writeln!(out, "file {} {}", file.path().len(), file.path());
+    for name in names {
+        let function = &functions.map[name];
+        let _ = writeln!(out, "fn {} {}", name.len(), name);
+        for instruction in function.verif_instructions() {
+            let _ = write!(out, "i {} {}", instruction.id, instruction.arguments.len());
+            for arg in instruction.arguments.iter() {
+                let _ = write!(out, " {} {}", arg.len(), arg);
+            }
+            out.push('\n');
+        }
+        let _ = writeln!(out, "end");
+    }
+    out
+}
+
+/// Load a `.mmm` file exactly as the interpreter does and dump what was read.
+pub fn load_and_dump(path: &str) -> anyhow::Result<String> {
+    let file = MScriptFile::open(std::rc::Rc::new(path.to_owned()))?;
+    Ok(dump_file(&file))
+}
